@@ -8,5 +8,38 @@ func init() {
 			{Func: "H_C07_scope", Quick: [][]int64{{0, 1, 0}, {1, 1, 0}, {2, 1, 0}, {0, 1, 1}}, Thorough: [][]int64{{0, 1, 0}, {1, 1, 0}, {2, 1, 0}, {0, 1, 1}, {1, 1, 1}, {0, 2, 0}, {1, 2, 0}, {2, 2, 0}}, Covers: []string{"end"}, NativeRetries: 40},
 		},
 	}
-	register(&Prop{ID: "C07", Variants: []*Prop{scope}})
+	fast := &Prop{
+		ID: "C07", Label: "fastgo", Dir: "/repo", HarnessDirs: []string{"c07f"}, Pkg: tgPath + "generator/fastgo",
+		Diff: []string{"D_C07_fastgo"},
+		Harnesses: []Harness{
+			{Func: "H_C07_fastgo", Quick: [][]int64{{0, 1}}, Thorough: [][]int64{{0, 1}, {0, 2}}, Covers: []string{"end"}, NativeRetries: 40},
+		},
+	}
+	req := &Prop{
+		ID: "C07", Label: "plugin-request", Dir: "/repo", HarnessDirs: []string{"c07p"}, Pkg: tgPath + "plugin",
+		Harnesses: []Harness{
+			{Func: "H_C07_request", Quick: modes(1), Thorough: modes(1, 2), Covers: []string{"end"}, NativeRetries: 40},
+		},
+	}
+	patch := &Prop{
+		ID: "C07", Label: "patches", Dir: "/repo", HarnessDirs: []string{"c07g"}, Pkg: tgPath + "generator",
+		Diff: []string{"D_C07_patches"},
+		Harnesses: []Harness{
+			{Func: "H_C07_patches", Quick: modes(1, 2), Thorough: modes(1, 2, 3), Covers: []string{"end"}, NativeRetries: 40},
+		},
+	}
+	sched := &Prop{
+		ID: "C07", Label: "persist-schedules", HarnessDirs: []string{"c19"}, Pkg: tgPath + "generator",
+		ExtraNative: map[string]string{"c19replay": "ZZReplayC19()"},
+		Custom:      runC19, SchedMaxJ: 2,
+	}
+	all := []*Prop{scope, fast, req, patch, sched}
+	top := &Prop{ID: "C07", Variants: all,
+		Bounds: "map iteration: every map range of the executed code may iterate in a perturbed order chosen by decision variables, at most B ranges per path (quick B=1; thorough B=2 for the small programs): a perturbed range of <=3 entries takes any other permutation, a larger one an adjacent transposition, the reversal or a rotation; programs: 3 designed programs for the Go backend's scope/naming/import/constant/descriptor computation (with and without with_reflection), one three-file program for the whole fastgo generation (no_fmt), one three-file program for the plugin request bytes (with and without include compression), one patch history; schedules: every interleaving of asyncPostProcess.OnFinished for <=2 jobs (the C19 machinery)",
+		Functions: []string{"golang.BuildScope (scope.init, resolver, namespace, importManager.init)", "(*Scope).ResolveImports", "(*Scope).MarshalDescriptor", "thrift_reflection.GetFileDescriptor", "meta.Marshal", "CodeUtils.BuildFuncMap: ServiceThrows", "CodeUtils.GenFieldTags",
+			"fastgo.(*FastGoBackend).GenerateOne (genBLength, genFastWrite, genFastRead, codewriter.Imports, bitset)", "plugin.MarshalRequest + compressThriftInclude", "generator.(*FileManager).Feed/BuildResponse", "generator.(*insertionPointReplacer).Replace (strings.NewReplacer interpreted)", "generator.(*asyncPostProcess).OnFinished (gosched)"},
+		Assumptions: []string{"text/template rendering (which iterates maps in key order by contract) and go/format are outside the encoding: the Go backend is checked up to the data the templates are given; whole-process runs, GOMAXPROCS and the output directory are outside",
+			"the budget B bounds how many map ranges deviate from insertion order on one path; a dependence that needs more simultaneously perturbed ranges is outside the bound",
+			"the order the Go runtime picks natively cannot be imposed on a replay: a counterexample is confirmed by repeating the native run (up to 40 times) until the runtime's own order shows the difference"}}
+	register(top)
 }
